@@ -26,4 +26,4 @@ def _nontrivial(c):
 
 
 mach.install(globals(), "C08", ("EvProbe", "EvSched"), ("C08:",), PROFILES, n_quick=300, n_thorough=5000,
-             nontrivial=_nontrivial)
+             nontrivial=_nontrivial, level="proof")
